@@ -245,7 +245,7 @@ class SymVC:
         try:
             return thunk()
         except RaisedInCode as r:
-            if self.may_raise:
+            if self.may_raise or r.exc_name in getattr(self, "allowed_raises", ()):
                 raise PathAbort(f"raised {r.exc_name}")
             # an unexpected, reachable raise is a failed obligation
             self.c.oblige(f"{self.name_prefix}.no_unexpected_raise", z3.BoolVal(False),
